@@ -28,12 +28,48 @@ EXPLANATION = (
 FQ = "dimse_messages.DIMSEMessage"
 
 
-def run(repo: Repo, rep: Report, tier: str) -> None:
+def run(repo: Repo, rep: Report, tier: str, only_completion: bool = False, names: dict | None = None) -> None:
+    names = names or {}
+    _orig_fail, _orig_ok, _orig_check = rep.fail, rep.ok, rep.check
+    if only_completion:
+        keep = {"overhead-count", "order-flags", "one-pdv"}
+
+        def _fail(rule, *a, **k):
+            if rule in names or rule in names.values():
+                _orig_fail(names.get(rule, rule), *a, **k)
+
+        def _ok(rule, *a, **k):
+            if rule in names or rule in names.values():
+                _orig_ok(names.get(rule, rule), *a, **k)
+
+        def _check(cond, rule, *a, **k):
+            if rule in names:
+                return _orig_check(cond, names[rule], *a, **k)
+            return cond
+
+        rep.fail, rep.ok, rep.check = _fail, _ok, _check
+    try:
+        _run(repo, rep, tier, only_completion)
+    finally:
+        rep.fail, rep.ok, rep.check = _orig_fail, _orig_ok, _orig_check
+
+
+def _run(repo: Repo, rep: Report, tier: str, only_completion: bool) -> None:
+    if not only_completion:
+        _declare(rep)
+    _body(repo, rep)
+
+
+def _declare(rep):
+    rep.rule("overhead-count", "the number of fragments per part is ceil(length / payload size) on the command, data and file paths")
     rep.rule("overhead", "every fragment-size computation subtracts one common constant k >= PDV overhead derived from the codec table; 1..k is rejected; 0 means a single fragment")
     rep.rule("one-pdv", "each yielded P_DATA carries exactly one PDV")
     rep.rule("order-flags", "command fragments precede data fragments; exactly one 'last' fragment per part, after the non-last ones")
     rep.rule("reader-bits", "decode_msg classifies the writer's four control headers as intended and appends data[1:] in arrival order")
     rep.rule("peer-maximum", "maximum_pdu_size is the peer's maximum length for both roles and is what send_msg passes to encode_msg")
+
+
+def _body(repo, rep):
     mod = repo.mod("dimse_messages")
     enc = repo.func("dimse_messages", "DIMSEMessage.encode_msg")
     gen = repo.func("dimse_messages", "DIMSEMessage._generate_pdv_fragments")
@@ -77,7 +113,7 @@ def run(repo: Repo, rep: Report, tier: str) -> None:
     k0 = min(ks) if ks else overhead
     # nr_fragments = ceil(len / (max - k)) on all three parts
     ceils = [c for c in walk_no_nested(enc) if isinstance(c, ast.Call) and dotted(c.func) == "ceil"]
-    rep.check(len(ceils) == 3 and all(isinstance(c.args[0], ast.BinOp) and isinstance(c.args[0].op, ast.Div) for c in ceils), "overhead", f"{FQ}.encode_msg", f"{len(ceils)} x ceil(length / (max - k))", "the fragment count must be the ceiling of length / payload size on the command, data and file paths", mod=mod, node=enc)
+    rep.check(len(ceils) == 3 and all(isinstance(c.args[0], ast.BinOp) and isinstance(c.args[0].op, ast.Div) for c in ceils), "overhead-count", f"{FQ}.encode_msg", f"{len(ceils)} x ceil(length / (max - k))", "the fragment count must be the ceiling of length / payload size on the command, data and file paths", mod=mod, node=enc)
     gceil = [c for c in walk_no_nested(gen) if isinstance(c, ast.Call) and dotted(c.func) == "ceil"]
     rep.check(len(gceil) == 1, "overhead", f"{FQ}._generate_pdv_fragments", "ceil(len(bytestream) / fragment_length)", "the generator must produce ceil(len/payload) fragments", mod=mod, node=gen)
     # zero => single fragment, 1..k rejected
@@ -114,6 +150,15 @@ def run(repo: Repo, rep: Report, tier: str) -> None:
                     fails.append(("one-pdv", n, st, "a P_DATA holding a fragment is replaced before it was yielded: the fragment is lost"))
                 in_pdata = 0
             h = _pdv_header(a)
+            dyn_last = False
+            if isinstance(h, tuple):
+                alts = h[1]
+                if len({x & 1 for x in alts}) != 1:
+                    raise AnalysisError(f"encode_msg: a PDV header chosen at run time may be command or data (line {a.lineno})")
+                if len({x & 2 for x in alts}) != 1:
+                    dyn_last = True
+                    rep.defer(f"encode_msg line {a.lineno}: the 'last fragment' bit is chosen by a run-time comparison; 'exactly one last fragment' cannot be decided statically for that part")
+                h = min(alts) & 1  # classification only; last-ness handled below
             if h is not None:
                 n_app[0] += 1
                 if in_pdata is None:
@@ -125,17 +170,21 @@ def run(repo: Repo, rep: Report, tier: str) -> None:
                         fails.append(("order-flags", n, st, "a command fragment can be emitted after a data-set fragment"))
                     if cmd_last >= 1:
                         fails.append(("order-flags", n, st, "a command fragment can be emitted after the fragment marked last"))
-                    if h & 2:
+                    if dyn_last:
+                        cmd_last = 1
+                    elif h & 2:
                         cmd_last = min(cmd_last + 1, 2)
                         if in_loop:
                             fails.append(("order-flags", n, st, "the 'last' header is used inside the fragment loop"))
                 else:
                     data_seen = True
-                    if data_last >= 1:
+                    if data_last >= 1 and not dyn_last:
                         fails.append(("order-flags", n, st, "a data-set fragment can be emitted after the fragment marked last"))
                     if cmd_last != 1:
                         fails.append(("order-flags", n, st, "a data-set fragment can be emitted before the last command fragment"))
-                    if h & 2:
+                    if dyn_last:
+                        data_last = 1
+                    elif h & 2:
                         data_last = min(data_last + 1, 2)
                         if in_loop:
                             fails.append(("order-flags", n, st, "the 'last' header is used inside the fragment loop"))
@@ -170,7 +219,7 @@ def run(repo: Repo, rep: Report, tier: str) -> None:
             rep.ok(rule, f"{FQ}.encode_msg :: all paths", f"{n_app[0]} append visits")
     # the generator yields feed `next(cmd_fragments)` / `next(ds_fragments)` from the right stream
     nexts = [(norm(c.args[0]), _pdv_header(enclosing(c, (ast.Expr,)))) for c in walk_no_nested(enc) if isinstance(c, ast.Call) and dotted(c.func) == "next"]
-    okn = all((h & 1) == (1 if v == "cmd_fragments" else 0) for v, h in nexts if h is not None) and len(nexts) >= 4
+    okn = all((h & 1) == (1 if v == "cmd_fragments" else 0) for v, h in nexts if isinstance(h, int)) and len(nexts) >= 2
     rep.check(okn, "order-flags", f"{FQ}.encode_msg", f"{nexts}", "command headers must wrap command-set fragments and data headers data-set fragments", mod=mod, node=enc)
     gens = {norm(s.targets[0]): norm(s.value.args[0]) for s in walk_no_nested(enc) if isinstance(s, ast.Assign) and isinstance(s.value, ast.Call) and dotted(s.value.func) == "self._generate_pdv_fragments"}
     rep.check(gens == {"cmd_fragments": "encoded_command_set", "ds_fragments": "encoded_data_set"}, "order-flags", f"{FQ}.encode_msg", f"{gens}", "fragment generators must be fed the command set and the data set respectively", mod=mod, node=enc)
@@ -208,6 +257,18 @@ def run(repo: Repo, rep: Report, tier: str) -> None:
         tgt = norm(w.func.value)
         okw = norm(w.args[0]) == "data[1:]" and (("command" in tgt) == in_cmd)
         rep.check(okw, "reader-bits", fqd, enclosing(w, (ast.stmt,)), "each fragment's payload (data[1:]) is appended to the part its header names", mod=mod, node=w)
+    # every PDV of a P-DATA primitive is consumed: inside the PDV loop the only way out is
+    # `return True` (message complete); no break, no early `return False`
+    loops = [f for f in walk_no_nested(dec) if isinstance(f, ast.For) and "presentation_data_value_list" in norm(f.iter)]
+    rep.need(len(loops) == 1, f"{fqd}: PDV loop vanished")
+    for x in ast.walk(loops[0]):
+        if isinstance(x, ast.Return):
+            okret = isinstance(x.value, ast.Constant) and x.value.value is True
+            rep.check(okret, "reader-bits", fqd, f"{norm(x)} inside the PDV loop under '{norm(enclosing(x, (ast.If,)).test) if enclosing(x, (ast.If,)) else ''}'", "decode_msg leaves the PDV loop without the message being complete: the remaining PDVs of the same P-DATA-TF (allowed by PS3.8 to be grouped in one PDU) are dropped and the data set is truncated or never completes", mod=mod, node=x)
+        if isinstance(x, ast.Break) and enclosing(x, (ast.For, ast.While)) is loops[0]:
+            rep.fail("reader-bits", fqd, "break inside the PDV loop", "remaining PDVs of the same P-DATA-TF are dropped", mod=mod, node=x)
+    after = [st for st in body_nodoc(dec) if st.lineno > loops[0].end_lineno]
+    rep.check(any(isinstance(st, ast.Return) and isinstance(st.value, ast.Constant) and st.value.value is False for st in after), "reader-bits", fqd, "return False after the PDV loop", "an incomplete message must be reported as such only after all PDVs were consumed", mod=mod, node=dec)
     # last command fragment: decode the accumulated command set; last data fragment: return True
     rep.check(any(norm(s) == "return True" for s in inner_ds[0][0].body), "reader-bits", fqd, "last data fragment -> return True", "the message is complete at the last data-set fragment", mod=mod, node=inner_ds[0][0])
 
